@@ -68,8 +68,9 @@ Definition represents (big_other : bytes -> option Z) (td : typed_data) (d : doc
   td_primary td = d_primary d /\
   repr big_other (d_types d) (Struct domain_name)
        (GMap (match td_domain td with Some m => m | None => [] end)) (d_domain d) /\
-  repr big_other (d_types d) (Struct (d_primary d))
-       (match td_message td with Some m => GMap m | None => GNil end) (d_message d).
+  (bytes_eqb (d_primary d) domain_name = true \/       (* domain-only: the message is not looked at *)
+   repr big_other (d_types d) (Struct (d_primary d))
+        (match td_message td with Some m => GMap m | None => GNil end) (d_message d)).
 
 (* array dimensions must fit Go's int for strconv.Atoi *)
 Fixpoint dims_fit (t : mty) : Prop :=
